@@ -154,11 +154,13 @@ func init() {
 		}
 		run := func(desc string, raw, payload []byte) {
 			res, ran := s.Case(name, desc, true, true, func() ([]byte, func() string) { return raw, call(raw, payload) })
-			if ran && res.Panicked {
+			if ran && (res.Panicked || res.TimedOut) {
 				// poison guard: the store may be locked for ever; continue on a fresh one, never close the old one
 				fix = newDagFix(t)
 			}
 		}
+		s.OnAbandon = func() { fix = newDagFix(t) }
+		defer func() { s.OnAbandon = nil }()
 		_ = run
 		type inst struct {
 			hdr     map[string]any
@@ -349,6 +351,9 @@ func init() {
 
 // sweepStore is Sweep.JSON for store-touching entry points: after a panic the fixture is replaced.
 func sweepStore(s *crash.Sweep, entryName, inst string, doc any, pairs bool, run func(doc any) ([]byte, func() string), refresh func()) {
+	prev := s.OnAbandon
+	s.OnAbandon = refresh
+	defer func() { s.OnAbandon = prev }()
 	before := s.Panics
 	s.JSON(entryName, inst, doc, hostile, pairs, true, func(d any) ([]byte, func() string) {
 		if s.Panics != before {
